@@ -193,6 +193,15 @@ theorem insertGlyph_ne_none {p : Params} {h : Nat → Nat → Nat} {c : Cache} {
   · rename_i hn; exact absurd hn this
   · simp
 
+/-- a failed insertion (the private image copy cannot be allocated) returns NULL and leaves the
+    cache exactly as it was, on each of the three paths of the C function -/
+theorem stepCore_insertFail (p : Params) (h : Nat → Nat → Nat) (c : Cache) (font key : Nat) :
+    stepCore p h c (.insertFail font key) = (c, .refused) := by
+  simp only [stepCore]
+  split
+  · rfl
+  · split <;> rfl
+
 theorem stepCore_ok {p : Params} {h : Nat → Nat → Nat} {c : Cache} (hp : 0 < p.hashSize)
     (hc : Counted p c) (o : Op) :
     CountedB p (c.clock + 1) (stepCore p h c o).1 ∧
@@ -268,6 +277,9 @@ theorem stepCore_ok {p : Params} {h : Nat → Nat → Nat} {c : Cache} (hp : 0 <
     · subst hr; exact ⟨hc', fun he => ⟨by simp, he⟩⟩
     · rename_i hn
       subst hr; exact ⟨hc', fun he => absurd hn (lookup_ne_none hp hc.tab he font key)⟩
+  | insertFail font key =>
+    rw [stepCore_insertFail]
+    exact ⟨hc', fun he => ⟨by simp, he⟩⟩
 
 
 /-! ### step and run -/
